@@ -154,9 +154,10 @@ MANIFEST_ENTRY = {
             "vectors=True is exactly the linear part; all 27 Euler orders (5 closed forms + generic fallback) equal the product of "
             "elementary rotations and are proper rotations (also for all real angles); order-string table complete (finite sweep); "
             "angle extraction hands atan2/acos the (rho sin a_i, rho cos a_i) of the i-th angle; quaternion matrices are proper "
-            "rotations, invariant under sign and scale. The model (coq/Gen/Euler.v, Hmm.v, Quat.v) is regenerated from linalg.py, "
+            "rotations, invariant under sign and scale; every branch of rotation_matrix_to_quaternion (nested torch.where traced with symbolic "
+            "conditions) returns +-(w,x,y,z) of its input's unit quaternion (eps = 0). The model (coq/Gen/Euler.v, Hmm.v, Quat.v) is regenerated from linalg.py, "
             "affine.py, _kornia.py on every run by symbolic tracing; batched operands are checked structurally against the unbatched forms.",
-    "note": "Partial: atan2/acos quadrant logic, matrix->quaternion branches, angle-axis conversions and the transforms' "
+    "note": "Partial: atan2/acos quadrant logic, which matrix->quaternion branch is taken and its eps-regularised square root, angle-axis conversions and the transforms' "
             "tanh/exp re-parameterisations are covered by implementation-side round-trip evaluation only (numeric). Trusted: Coq kernel, "
             "vm_compute, tools/symtorch.py (validated each run against torch on the traced functions), float rounding outside the model.",
 }
